@@ -49,6 +49,8 @@ type RTPair struct {
 	// ParserParams: integer parameters of the parser that its caller derives from the stream (name -> value for a
 	// source), e.g. the end offset of a section.
 	ParserParams map[string]func(src *Source) lin.Form
+	// Sources: specification sources (rule A4p) used instead of a writer's outcomes.
+	Sources func(c *Checker) []*Source
 	// Start: byte offset at which the parser starts reading (bytes before it are consumed by its caller).
 	Start int64
 	// Guided: compose by interpreting the parser once per writer outcome (oracle.go) instead of refuting a flat
@@ -75,8 +77,12 @@ func (c *Checker) a3(r *report.Report, p RTPair) {
 		fmt.Fprintf(os.Stderr, "A3 %s start\n", p.Name)
 		defer func() { fmt.Fprintf(os.Stderr, "A3 %s done in %s\n", p.Name, time.Since(t0)) }()
 	}
-	if p.Writer == nil || p.Parser == nil {
+	if (p.Writer == nil && p.Sources == nil) || p.Parser == nil {
 		r.Unknown("A3", p.Name+"/anchors", "", "writer or parser function not found")
+		return
+	}
+	if p.Sources != nil {
+		c.a4p(r, p)
 		return
 	}
 	pos := c.P.Pos(p.Parser.Pos())
@@ -285,4 +291,101 @@ func (c *Checker) A5(r *report.Report, funcs []*ssa.Function) {
 		r.Bad("A5", "dead-bit-operation@"+e[:i], e[:i], fmt.Sprintf("operator %s yields a constant although its operand carries stream or field bits: every variable bit is shifted or masked away", e[i+1:]))
 	}
 	r.OK("A5", "dead-bit-operations", "", fmt.Sprintf("%d functions interpreted at bit level; %d operations discard their whole operand", len(funcs), len(ps)))
+}
+
+// a4p runs the parser on specification sources (rule A4, parser side).
+func (c *Checker) a4p(r *report.Report, p RTPair) {
+	pos := c.P.Pos(p.Parser.Pos())
+	fields := map[string]*fieldAgg{}
+	var order []string
+	var accBad, consBad []string
+	assumed := map[string]bool{}
+	srcs := p.Sources(c)
+	for _, src := range srcs {
+		opts := ComposeOpts{Computed: map[string]*lin.Form{}, Why: map[string]string{}, Start: p.Start, Params: map[string]lin.Form{}}
+		for path, fn := range p.Computed {
+			opts.Computed[path] = fn(src)
+			opts.Why[path] = p.Why[path]
+		}
+		for name, fn := range p.ParserParams {
+			opts.Params[name] = fn(src)
+		}
+		if p.Consumed != nil {
+			w := p.Consumed(src)
+			opts.Consumed = &w
+		} else if src.TotalOK && div8(src.Total) {
+			w := scaleDown8(src.Total).AddC(p.Start)
+			opts.Consumed = &w
+		}
+		comp := c.Guided(src, p.Parser, p.It, p.Root, p.RootPtr, opts)
+		for _, a := range comp.Assumed {
+			assumed[a] = true
+		}
+		if len(comp.Problems) > 0 {
+			accBad = append(accBad, src.Name+": "+comp.Problems[0])
+		}
+		for _, b := range comp.ConsumedBad {
+			consBad = append(consBad, src.Name+": "+b)
+		}
+		for _, f := range comp.Fields {
+			a := fields[f.Path]
+			if a == nil {
+				a = &fieldAgg{}
+				fields[f.Path] = a
+				order = append(order, f.Path)
+			}
+			switch {
+			case !f.OK:
+				a.bad++
+				if a.detail == "" {
+					a.detail, a.example = f.Detail, src.Name
+				}
+			case f.Skip:
+				a.skip++
+			default:
+				a.ok++
+			}
+		}
+	}
+	key := p.Name
+	r.Floor("A4", key+": specification instances", len(srcs), p.MinSources)
+	if len(accBad) == 0 {
+		r.OK("A4", key+"/accepted", pos, fmt.Sprintf("every reference encoding (%d instances) is accepted by the parser", len(srcs)))
+	} else {
+		sort.Strings(accBad)
+		r.Bad("A4", key+"/accepted", pos, fmt.Sprintf("%d of %d instances: %s", len(accBad), len(srcs), clip(accBad[0], 600)))
+	}
+	if len(consBad) == 0 {
+		r.OK("A4", key+"/consumed", pos, "the parser consumes exactly the reference encoding")
+	} else {
+		sort.Strings(consBad)
+		r.Bad("A4", key+"/consumed", pos, fmt.Sprintf("%d of %d instances: %s", len(consBad), len(srcs), clip(consBad[0], 600)))
+	}
+	sort.Strings(order)
+	for _, path := range order {
+		a := fields[path]
+		k := key + "/field/" + path
+		switch {
+		case a.bad > 0:
+			r.Bad("A4", k, pos, fmt.Sprintf("%d of %d instances: %s [%s]", a.bad, a.ok+a.skip+a.bad, clip(a.detail, 500), clip(a.example, 200)))
+		case a.ok == 0:
+			if why, ok := p.NotWritten[path]; ok {
+				r.OK("A4", k, pos, "not part of the table ("+why+")")
+			} else if _, isComputed := p.Computed[path]; isComputed {
+				r.OK("A4", k, pos, "exempt: "+p.Why[path])
+			} else {
+				r.Bad("A4", k, pos, "the field is carried by no reference encoding and is not declared as such")
+			}
+		default:
+			r.OK("A4", k, pos, fmt.Sprintf("the parser reads this field from the bits the standard's table puts it in (%d instances)", a.ok))
+		}
+	}
+	var as []string
+	for a := range assumed {
+		as = append(as, a)
+	}
+	sort.Strings(as)
+	for _, a := range as {
+		r.Assume(clean(a))
+	}
 }
